@@ -228,6 +228,11 @@ func (e *Engine) unop(f *frame, st *State, x *ssa.UnOp, pos string) Val {
 	case token.XOR:
 		return Val{Typ: x.Type(), Terms: []*smt.Term{c.Op("bvnot", a.Terms[0].Sort, a.Terms[0])}}
 	case token.ARROW:
+		if e.AbstractConc {
+			if v, ok := e.execRecv(f, st, x, pos); ok {
+				return v
+			}
+		}
 		panic(reject("channel receive"))
 	}
 	panic(reject("unop " + x.Op.String()))
@@ -489,7 +494,7 @@ func (e *Engine) lookup(f *frame, st *State, x *ssa.Lookup, pos string) Val {
 	if isString(x.X.Type()) {
 		idx := e.toIndex(f.get(x.Index), x.Index.Type())
 		e.oblige(st, "index", "", e.inBounds(idx, e.strLen(m.Terms[0])), pos, "string index in range")
-		return Val{Typ: x.Type(), Terms: []*smt.Term{c.App("gs.at", smt.BV(8), m.Terms[0], idx)}}
+		return Val{Typ: x.Type(), Terms: []*smt.Term{c.Select(c.App("gs.bytes", bytesInner, m.Terms[0]), idx)}}
 	}
 	key := f.get(x.Index)
 	if len(key.Terms) != 1 {
